@@ -229,7 +229,7 @@ def _sensitive_uses(fn: Func, names: Set[str]) -> List[Tuple[ast.AST, str, str]]
     for x in walk_no_defs(fn.node):
         if isinstance(x, ast.Call):
             d = dotted(x.func)
-            if d in ("len", "sorted", "list", "tuple", "set", "sum", "max", "min", "int", "float") and x.args and isinstance(x.args[0], ast.Name) and x.args[0].id in names:
+            if d in ("len", "sorted", "list", "tuple", "set", "sum", "max", "min", "int", "float", "dict") and x.args and isinstance(x.args[0], ast.Name) and x.args[0].id in names:
                 out.append((x, x.args[0].id, f"{d}()"))
             if isinstance(x.func, ast.Attribute) and isinstance(x.func.value, ast.Name) and x.func.value.id in names:
                 out.append((x, x.func.value.id, f".{x.func.attr}()"))
@@ -304,6 +304,19 @@ def rule_total(ctx) -> None:
     # the first statement narrows the parameter
     first_guard = any(isinstance(st, ast.If) and src(st.test) == f"not isinstance({pv.params[0]}, str)" and any(isinstance(y, ast.Return) for y in st.body) for st in pv.node.body[:3])
     ctx.check(first_guard, "C13.TOTAL", f"{pv.qual}/input-narrowed", pv.loc(), "non-string input is rejected before any string operation", "the input is not narrowed to str first")
+    # the second entry point: sanitize_plan(plan_dict, errors) - a decoded plan of ANY JSON type (array, string, number)
+    sp = ctx.func(SAN + ":sanitize_plan")
+    cfgs = ctx.cfg(sp)
+    uses_sp = _sensitive_uses(sp, {sp.params[0]})
+    ctx.floor("C13.TOTAL", "operations on the untrusted plan in sanitize_plan", len(uses_sp), 1)
+    for node, nm, what in uses_sp:
+        facts = set()
+        for c in cfgs.node_containing(node):
+            facts |= cfgs.facts(c)
+        ok = any(p and a.startswith(f"isinstance({nm},") for a, p in facts) or any((not p) and a.replace(" ", "").replace("(", "").replace(")", "") == f"{nm}isnotNoneandnotisinstance{nm},dict" for a, p in facts) \
+            or any((not p) and a == f"not isinstance({nm}, dict)" for a, p in facts) or _narrowed_in_boolop(ctx.prog, sp, node, nm) or guarded_by_catch_all(ctx.prog, sp, node) is not None
+        ctx.check(ok, "C13.TOTAL", f"{sp.qual}/{nm}{what}", sp.loc(node), f"{what} on the plan runs only where it is a mapping (or inside try/except)",
+                  f"{what} is applied to the untrusted plan (`{src(node)[:40]}`) without a dominating isinstance narrowing: a plan that decodes to a list, string or number makes the sanitiser raise")
     cb = ctx.func(SAN + ":_coerce_bool")
     cfgb = ctx.cfg(cb)
     for node, nm, what in _sensitive_uses(cb, {cb.params[0]}):
@@ -313,6 +326,36 @@ def rule_total(ctx) -> None:
             facts |= cfgb.facts(c)
         ok = any(p and a.startswith(f"isinstance({nm},") for a, p in facts) or _narrowed_in_boolop(ctx.prog, cb, node, nm)
         ctx.check(ok, "C13.TOTAL", f"{cb.qual}/{nm}{what}", cb.loc(node), f"{what} on the flag value is narrowed", f"{what} on the untrusted flag value is not narrowed")
+
+
+def rule_token_budget_identity(ctx) -> None:
+    """the Speak op's own token budget is told from 'not set' by identity: `if op and getattr(op, "max_tokens", None):` sends a
+    budget of 0 to the fallback (the bundle's caps.tokens) and an utterance is emitted against a zero budget"""
+    from ..zero import truthy_operands
+    m = ctx.prog.module("clematis.engine.stages.t3.dialogue")
+    n_sites = 0
+    for fn in m.funcs.values():
+        for x in walk_no_defs(fn.node):
+            if not isinstance(x, (ast.If, ast.IfExp)):
+                continue
+            reads = [c for c in ast.walk(x.test) if isinstance(c, ast.Call) and dotted(c.func) == "getattr" and len(c.args) >= 2 and const_str(c.args[1]) == "max_tokens"]
+            reads += [c for c in ast.walk(x.test) if isinstance(c, ast.Attribute) and c.attr == "max_tokens"]
+            if not reads:
+                continue
+            n_sites += 1
+            def operands(t):
+                if isinstance(t, ast.UnaryOp) and isinstance(t.op, ast.Not):
+                    return operands(t.operand)
+                if isinstance(t, ast.BoolOp):
+                    return [y for v in t.values for y in operands(v)]
+                return [t]
+
+            bad = [o for o in operands(x.test) if any(o is r for r in reads)]
+            ctx.check(not bad, "C13.TOK", ctx.okey(f"{fn.qual}/op-token-budget-by-identity"), fn.loc(x.test),
+                      "the op's max_tokens is compared with None, so 0 is a budget",
+                      f"`{src(x.test)[:60]}` tests the Speak op's max_tokens for truthiness: a budget of 0 is read as 'not set' and the utterance falls back to the bundle's caps.tokens - "
+                      "it exceeds its token budget")
+    ctx.floor("C13.TOK", "tests of the Speak op's max_tokens in the dialogue module", n_sites, 2)
 
 
 def rule_schema(ctx) -> None:
@@ -376,4 +419,5 @@ def run(ctx) -> None:
     rule_tok(ctx)
     rule_pure(ctx)
     rule_total(ctx)
+    rule_token_budget_identity(ctx)
     rule_schema(ctx)
